@@ -672,7 +672,7 @@ static mut RATIO_FROM_FLOAT_CALLED: bool = false;
 static mut BIGINT_FROM_F64_ARG: Option<f64> = None;
 struct ExactStubs;
 impl ExactStubs {
-    fn ratio_from_float<T: num_traits::float::FloatCore>(_f: T) -> Option<BigRational> {
+    fn ratio_from_float<T: num_traits::float::FloatCore>(_f: T) -> Option<num_rational::BigRational> {
         unsafe { RATIO_FROM_FLOAT_CALLED = true };
         None
     }
